@@ -3,6 +3,7 @@ package rules
 import (
 	"fmt"
 	"go/constant"
+	"go/token"
 	"go/types"
 	"strings"
 
@@ -279,8 +280,30 @@ func c09X4(r *Run, rep *core.Report) {
 			normalised := false
 			if al, isA := cfgRoot.(*ssa.Alloc); isA {
 				if st := uniqueStore(al); st != nil {
-					if call, isCall := st.Val.(*ssa.Call); isCall && core.Callee(call) != nil && core.Callee(call).Pkg == r.P.Cache {
-						normalised = true
+					// ... directly, or - when the settings are initialised in a step function that is handed the config -
+					// at that function's only call site
+					v := st.Val
+					for hop := 0; hop < 4 && v != nil; hop++ {
+						v = core.StripConv(v)
+						if call, isCall := v.(*ssa.Call); isCall {
+							if core.Callee(call) != nil && core.Callee(call).Pkg == r.P.Cache {
+								normalised = true
+							}
+							break
+						}
+						if prm, isP := v.(*ssa.Parameter); isP {
+							v = uniqueArgOf(r, prm)
+							continue
+						}
+						if ld2, isLd2 := v.(*ssa.UnOp); isLd2 && ld2.Op == token.MUL {
+							if al2, isA2 := ld2.X.(*ssa.Alloc); isA2 {
+								if st2 := uniqueStore(al2); st2 != nil {
+									v = st2.Val
+									continue
+								}
+							}
+						}
+						break
 					}
 				}
 			}
@@ -735,4 +758,18 @@ func c09Normalise(r *Run, rep *core.Report) {
 			"the configuration normaliser changes the default expiration: "+bad+": entries stored with DefaultExpiration expire at the wrong time or not at all")
 	}
 	rep.MinCount("C09.X4", "normaliser region representatives judged", n, 2)
+}
+
+// uniqueArgOf: the argument passed for a parameter when its function has exactly one static call site.
+func uniqueArgOf(r *Run, p *ssa.Parameter) ssa.Value {
+	f := p.Parent()
+	if f == nil {
+		return nil
+	}
+	idx := paramIndexOf(f, p)
+	sites := core.CallSitesOf(r.P.Funcs, f)
+	if idx < 0 || len(sites) != 1 || idx >= len(sites[0].Common().Args) {
+		return nil
+	}
+	return sites[0].Common().Args[idx]
 }
